@@ -52,11 +52,14 @@ class ProtocolType(Protocol):
 @cache
 def get_protocol(protocol_version: str) -> ProtocolType:
     """Return the protocol module for the protocol_version."""
+    version = AwesomeVersion(protocol_version)
+    # Only major and minor select the protocol, e.g. 2.2.0 and 2.3.2 use protocol 2.2.
+    major_minor = AwesomeVersion(f"{version.major}.{version.minor}")
     module = next(
         (
             PROTOCOL_VERSIONS[_protocol_version]
             for _protocol_version in sorted(PROTOCOL_VERSIONS, reverse=True)
-            if AwesomeVersion(protocol_version) >= AwesomeVersion(_protocol_version)
+            if major_minor >= AwesomeVersion(_protocol_version)
         ),
         protocol_14,
     )
